@@ -56,7 +56,7 @@ DEFAULTS = [0.0, 0.0, 1.0, -math.inf, math.inf, 2.0]
 
 
 def random_pt(rng, types, *, dtype=torch.float64, values=VALUES, defaults=DEFAULTS, specials=0.1, bool_=False,
-              p_dense=0.25, p_share=0.3, max_phys=400):
+              p_dense=0.25, p_share=0.3, max_phys=400, special_values=(math.inf, -math.inf, 0.0)):
     """a well-formed PatternedTensor whose virtual dimensions inhabit `types`"""
     for _ in range(50):
         pool = []
@@ -77,7 +77,7 @@ def random_pt(rng, types, *, dtype=torch.float64, values=VALUES, defaults=DEFAUL
         phys = torch.tensor(data, dtype=torch.bool).reshape(shape)
         default = rng.random() < 0.3
     else:
-        data = [rng.choice(values) if rng.random() > specials else rng.choice([math.inf, -math.inf, 0.0]) for _ in range(numel)]
+        data = [rng.choice(values) if rng.random() > specials else rng.choice(list(special_values)) for _ in range(numel)]
         phys = torch.tensor(data, dtype=dtype).reshape(shape)
         default = rng.choice(defaults)
     return PatternedTensor(phys, tuple(paxes), vaxes, default)
